@@ -16,9 +16,16 @@ def spec(tier):
   return s
 
 
+def _cases(tier):
+  yield from universe.multi_cases(
+      eg.TTOPO + ['CONV_2D', 'EMBEDDING_LOOKUP', 'SOFTMAX', 'MUL']
+      if tier == 'quick' else eg.T21 + eg.U)
+  yield from universe.graph_cases(spec(tier), sigrev=True)
+
+
 def plan(tier, seed):
   return {
-      'cases': universe.graph_cases(spec(tier), sigrev=True),
+      'cases': _cases(tier),
       'budget_s': 240 if tier == 'quick' else 3000,
       'chunk': 16,
       'rule': ('E1: every complete graph history within the bounds x the 5 '
